@@ -20,7 +20,7 @@ func registerC16() {
 		Rule: "PRNG streams rich in unknown messages, unknown fields of known messages and developer fields, in five variants (intact, truncated at a PRNG offset, file CRC " +
 			"corrupted, data record on an undefined local type, a file type without container after a file_id with unlisted fields); each decoded under all 8 combinations of {logger, unknown fields, unknown messages} (options given in varying order, one of them sometimes twice) through a counting reader " +
 			"and a logger that formats every argument; decoded content, error text and bytes consumed must be identical across the 8 runs, the lists absent when their option is " +
-			"off, sorted, and equal to the model's counts (failing streams: at least the completed records, at most completed + the record in flight); family chains: 2-3 such streams concatenated and decoded by DecodeChained under the 8 option sets: every File of the chain must carry exactly its own file's lists; non-trivial: the model " +
+			"off, sorted, and equal to the model's counts (failing streams: at least the completed records, at most completed + the record in flight); family many: files with 5000 / 9000 / all (> 65000) distinct unknown message numbers, and with 6000 / 20000 distinct (known message, unlisted field number) pairs, one or two records each: the lists must name every one of them with its exact count; family chains: 2-3 such streams concatenated and decoded by DecodeChained under the 8 option sets: every File of the chain must carry exactly its own file's lists; non-trivial: the model " +
 			"expects at least one unknown message and one unknown field; distinct by stream digest",
 		Assume: []string{
 			"definitions do not list the same unknown field number twice (the count would then be per occurrence, which the statement does not define)",
@@ -30,6 +30,7 @@ func registerC16() {
 		Families: []lib.Family{
 			{Name: "streams", N: func(t string) uint64 { return tierN(t, 40000, 1000000) }, Run: c16Case},
 			{Name: "chains", N: func(t string) uint64 { return tierN(t, 4000, 100000) }, Run: c16Chain},
+			{Name: "many", N: func(t string) uint64 { return 6 }, Run: c16Many},
 		},
 	})
 }
@@ -398,4 +399,91 @@ func c16Chain(c *lib.Ctx, idx uint64) {
 	}
 	c.Count("chains", 1)
 	c.Nontrivial(chain)
+}
+
+// c16Many: the lists must be complete however many distinct items a file has.
+func c16Many(c *lib.Ctx, idx uint64) {
+	rng := lib.NewRand("C16.many", idx)
+	prof := lib.Profile()
+	plan := &ref.Plan{HeaderSize: 14, Proto: 0x20, ProfVer: 2115}
+	plan.Records = append(plan.Records,
+		ref.Record{IsDef: true, Local: 0, Global: 0, Fields: []ref.FieldDef{{Num: 0, Size: 1, Base: 0}}},
+		ref.Record{Local: 0, Data: [][]byte{{4}}})
+	switch idx {
+	case 0, 1, 2:
+		want := []int{5000, 9000, 70000}[idx]
+		n := 0
+		for g := 1; g < 0xFFFF && n < want; g++ {
+			if prof.Known[uint16(g)] {
+				continue
+			}
+			n++
+			local := byte(1 + g%15)
+			arch := byte(g % 2)
+			plan.Records = append(plan.Records, ref.Record{IsDef: true, Local: local, Arch: arch, Global: uint16(g), Fields: []ref.FieldDef{{Num: byte(g), Size: 1, Base: 0x02}}})
+			for k := 0; k <= g%2; k++ {
+				plan.Records = append(plan.Records, ref.Record{Local: local, Data: [][]byte{{byte(k)}}})
+			}
+		}
+	default:
+		want := []int{6000, 20000, 6000}[idx-3]
+		n := 0
+		known := lib.KnownMesgs()
+		for _, g := range known {
+			if g == 0 || n >= want {
+				continue
+			}
+			def := ref.Record{IsDef: true, Local: byte(1 + int(g)%15), Arch: byte(g % 2), Global: g}
+			var data [][]byte
+			for num := 0; num < 253 && len(def.Fields) < 250 && n < want; num++ {
+				if prof.Field(g, byte(num)) != nil {
+					continue
+				}
+				def.Fields = append(def.Fields, ref.FieldDef{Num: byte(num), Size: 1, Base: 0x0D})
+				data = append(data, []byte{rng.Byte()})
+				n++
+			}
+			plan.Records = append(plan.Records, def)
+			for k := 0; k <= int(g)%2+int(idx-3)%2; k++ {
+				plan.Records = append(plan.Records, ref.Record{Local: def.Local, Data: data})
+			}
+		}
+	}
+	b := plan.Bytes()
+	c.SetInflight(b[:minInt(len(b), 4096)])
+	ex, err := lib.Expect(plan, lib.ExpectOpts{})
+	if err != nil || ex.Fail {
+		c.Violation(b[:256], "harness: model failed on the many-items plan: %v", err)
+		return
+	}
+	f, derr, o := lib.GuardedDecode(b, optionList(7, &countingLogger{}, idx)...)
+	c.Eval()
+	if o.Panicked || o.Hang || derr != nil {
+		c.Violation(b[:minInt(len(b), 4096)], "Decode with all options failed on a well-formed file with %d unknown messages / %d unknown fields: %v %s", len(ex.Content.UnknownMessages), len(ex.Content.UnknownFields), derr, o.Panic)
+		return
+	}
+	got := lib.FileContent(f)
+	if fmt.Sprint(got.UnknownMessages) != fmt.Sprint(ex.Content.UnknownMessages) {
+		c.Violation(b[:minInt(len(b), 4096)], "unknown-message list incomplete or wrong: %d entries reported, the file has %d distinct unknown message numbers (first difference: %s)", len(got.UnknownMessages), len(ex.Content.UnknownMessages), firstListDiff(fmt.Sprint(got.UnknownMessages), fmt.Sprint(ex.Content.UnknownMessages)))
+		return
+	}
+	if fmt.Sprint(got.UnknownFields) != fmt.Sprint(ex.Content.UnknownFields) {
+		c.Violation(b[:minInt(len(b), 4096)], "unknown-field list incomplete or wrong: %d entries reported, the file has %d distinct (message, unlisted field) pairs (first difference: %s)", len(got.UnknownFields), len(ex.Content.UnknownFields), firstListDiff(fmt.Sprint(got.UnknownFields), fmt.Sprint(ex.Content.UnknownFields)))
+		return
+	}
+	c.Count("distinct_unknown_messages_in_one_file", int64(len(ex.Content.UnknownMessages)))
+	c.Count("distinct_unknown_fields_in_one_file", int64(len(ex.Content.UnknownFields)))
+	c.Nontrivial(b[:minInt(len(b), 4096)], []byte{byte(idx)})
+}
+
+func firstListDiff(a, b string) string {
+	i := 0
+	for i < len(a) && i < len(b) && a[i] == b[i] {
+		i++
+	}
+	lo := i - 30
+	if lo < 0 {
+		lo = 0
+	}
+	return fmt.Sprintf("reported ...%s / expected ...%s", a[lo:minInt(len(a), i+40)], b[lo:minInt(len(b), i+40)])
 }
